@@ -76,19 +76,21 @@ def code_snapshot(schema):
     return snap
 
 
-def _roundtrip(src: int, opt: int, default: int, recursion: int, mask: int) -> bool:
+def _roundtrip(src: int, opt: int, default: int, recursion: int, mask: int, text: int = 0) -> bool:
     """
-    pre: 0 <= src <= 1 and 0 <= opt < len(OPTS) and 0 <= default < len(S.DEFAULT_KINDS) and 0 <= recursion <= 3 and 0 <= mask <= 4
+    pre: 0 <= src <= 1 and 0 <= opt < len(OPTS) and 0 <= default < len(S.DEFAULT_KINDS) and 0 <= recursion <= 3 and 0 <= mask <= 4 and 0 <= text < len(S.TEXT_SUFFIXES)
+    pre: text == 0 or (src == 0 and mask == 0 and (thorough() or (default <= 1 and recursion == 3)))
     pre: shard_of(opt)
     post: _
     """
     SRC, O = concrete_int(src, 0, 1), pick(opt, OPTS)
     D, R, M = concrete_int(default, 0, len(S.DEFAULT_KINDS) - 1), concrete_int(recursion, 0, 3), concrete_int(mask, 0, 4)
+    TX = concrete_int(text, 0, len(S.TEXT_SUFFIXES) - 1)
     if SRC == 1 and (D != 0 or R != 0 or M != 0):
         return result(True, False)
     with untraced():
         if SRC == 0:
-            rec = S.base_record(dict(desc=True, dep=True, default=D, recursion=R, schema_def=(M == 1), roots=M, present=0x3F))
+            rec = S.base_record(dict(desc=True, dep=True, default=D, recursion=R, schema_def=(M == 1), roots=M, present=0x3F, text=TX))
             schema = build_schema(S.render(rec))
         else:
             schema = code_schema()
@@ -253,10 +255,11 @@ CONDITIONS = [
     Cond(
         name="roundtrip", fn=_roundtrip, quick=150, thorough=600, per_path=60, shards_quick=16, shards_thorough=16,
         bound="SDL-built schemas of the C11 generator (13 default kinds x 4 recursion patterns x 5 root-type naming variants incl. swapped conventional names and a schema extension adding a root) and a code-built schema (enum internal values incl. a tuple, defaults of every input kind, "
-              "recursive input) x 16 printer option sets (indent 4/2/tab/1, descriptions, custom schema directives): to_string twice equal, rebuilt schema structurally equal, reprint equal",
-        symbolic={"src": "choice", "opt": "choice: printer options", "default,recursion,mask": "choice: generator"},
+              "recursive input) x 16 printer option sets (indent 4/2/tab/1, descriptions, custom schema directives) x 9 texts appended to EVERY description and deprecation reason (quotes and backslashes, a second line, BMP and astral "
+              "non-ASCII, trailing backslash / quote, tab, U+2028/U+0085; quick: for two generator settings): to_string twice equal, rebuilt schema structurally equal, reprint equal",
+        symbolic={"src": "choice", "opt": "choice: printer options", "default,recursion,mask": "choice: generator", "text": "choice: description / reason text"},
         assumptions=["structural equality = harness/sdlgen.snapshot with enum-typed defaults compared by value name"],
-        witness={"src": 0, "opt": 0, "default": 1, "recursion": 0, "mask": 0},
+        witness={"src": 0, "opt": 0, "default": 1, "recursion": 0, "mask": 0, "text": 0},
     ),
     Cond(
         name="history", fn=_history, quick=200, thorough=400, per_path=60, shards_quick=16, shards_thorough=16,
